@@ -385,7 +385,10 @@ where
                 out.imp(&format!("{} log={} {} {}", res, if sorted.is_empty() { "-".into() } else { sorted.join("|") }, obs, sfx));
                 out.op("order");
                 let mut ordered: Vec<String> = raw.iter().filter(|l| !l.starts_with("mux,")).cloned().collect();
-                ordered.extend(raw.iter().filter(|l| l.starts_with("mux,")).cloned());
+                // detached close tasks are polled in no particular order: the `mux,closed` entries are sorted
+                let mut muxes: Vec<String> = raw.iter().filter(|l| l.starts_with("mux,")).cloned().collect();
+                muxes.sort();
+                ordered.extend(muxes);
                 out.imp(&if ordered.is_empty() { "-".to_string() } else { ordered.join("|") });
             }
             Err(m) => {
